@@ -5,6 +5,7 @@
 package netsim
 
 import (
+	"encoding/hex"
 	"encoding/json"
 	"errors"
 	"fmt"
@@ -133,9 +134,22 @@ type DiscPlan struct {
 	Tables  int        `json:"tables"`
 	Attack  []Datagram `json:"attack"`
 	KeySeed uint64     `json:"key_seed"`
+	// Neighbors, when non-empty: the attacker bonds with the victim, the victim
+	// is made to look a target up, and the attacker answers its FINDNODE with
+	// NEIGHBORS packets carrying these entries.
+	Neighbors []Neighbor `json:"neighbors,omitempty"`
 	// rlpx / proto plans live in the same envelope (see rlpx.go, proto.go)
 	Rlpx  *RlpxPlan  `json:"rlpx,omitempty"`
 	Proto *ProtoPlan `json:"proto,omitempty"`
+	Peer  *PeerPlan  `json:"peer,omitempty"`
+}
+
+// Neighbor is one entry of a solicited NEIGHBORS reply.
+type Neighbor struct {
+	IP  string `json:"ip"` // hex bytes of the ip field (any length)
+	UDP uint16 `json:"udp"`
+	TCP uint16 `json:"tcp"`
+	ID  string `json:"id"` // "valid" (a fresh key), "self" (the victim), "dup" (same as previous), "offcurve", "short", "zero"
 }
 
 func DecodePlan(raw json.RawMessage) (any, error) {
@@ -163,7 +177,59 @@ func genDisc(rng *kernel.RNG, env *kernel.Env) *DiscPlan {
 	for i := 0; i < n; i++ {
 		p.Attack = append(p.Attack, Datagram{Kind: kinds[rng.Intn(len(kinds))], A: rng.Intn(1400), B: rng.Intn(256)})
 	}
+	if rng.Intn(2) == 0 {
+		ips := []string{"0a090909", "0a090a01", "08080808", "7f000001", "c0a80001", "00000000", "ffffffff", "e0000001",
+			"20010db8000000000000000000000001", "00000000000000000000ffff0a090901", "fe800000000000000000000000000001", "0a0909", "0a09090909", ""}
+		ids := []string{"valid", "valid", "valid", "self", "dup", "offcurve", "short", "zero"}
+		ports := []uint16{30303, 30303, 0, 1, 1024, 1025, 65535}
+		for i := rng.Range(1, 40); i > 0; i-- {
+			p.Neighbors = append(p.Neighbors, Neighbor{IP: ips[rng.Intn(len(ips))], UDP: ports[rng.Intn(len(ports))], TCP: ports[rng.Intn(len(ports))], ID: ids[rng.Intn(len(ids))]})
+		}
+	}
 	return p
+}
+
+// neighborsPackets renders the plan's entries as NEIGHBORS packets of at most 12 entries.
+func neighborsPackets(p *DiscPlan, attacker *btcec.PrivateKey, victimID []byte, now int64) [][]byte {
+	var out [][]byte
+	var nodes [][]byte
+	var prev []byte
+	flush := func() {
+		body := append([]byte{137}, "aqua"...)
+		body = append(body, refmodel.RlpList(refmodel.RlpList(nodes...), rlpUint(uint64(now+20)))...)
+		out = append(out, signedPacket(attacker, body))
+		nodes = nil
+	}
+	for i, n := range p.Neighbors {
+		ip, _ := hex.DecodeString(n.IP)
+		var id []byte
+		switch n.ID {
+		case "self":
+			id = victimID
+		case "dup":
+			id = prev
+		case "offcurve":
+			id = refmodel.Keccak([]byte(fmt.Sprintf("offcurve-%d", i)))
+			id = append(id, id...)
+		case "short":
+			id = []byte{1, 2, 3}
+		case "zero":
+			id = make([]byte, 64)
+		}
+		if id == nil {
+			k := keyFrom(p.KeySeed, 1000+i)
+			id = k.PubKey().SerializeUncompressed()[1:]
+		}
+		prev = id
+		nodes = append(nodes, refmodel.RlpList(refmodel.RlpBytes(ip), rlpUint(uint64(n.UDP)), rlpUint(uint64(n.TCP)), refmodel.RlpBytes(id)))
+		if len(nodes) == 12 {
+			flush()
+		}
+	}
+	if len(nodes) > 0 || len(out) == 0 {
+		flush()
+	}
+	return out
 }
 
 func (d Datagram) build(attacker *btcec.PrivateKey, from, to *net.UDPAddr, now int64, rng *kernel.RNG) []byte {
@@ -264,6 +330,70 @@ func execDisc(p *DiscPlan, col *kernel.Collector) []kernel.Violation {
 	}
 	time.Sleep(time.Second)
 	col.AddSim(3 * time.Second)
+	if len(p.Neighbors) > 0 {
+		// the attacker turns into a well-behaved peer: it answers the victim's pings,
+		// gets bonded, and answers the victim's FINDNODE with the hostile entries
+		stopResp := make(chan struct{})
+		var findnodes, pongs int
+		var mu sync.Mutex
+		vid := tabs[0].Self().ID
+		go func() {
+			for {
+				select {
+				case <-stopResp:
+					return
+				case d := <-asock.in:
+					if len(d.b) <= dHead {
+						continue
+					}
+					switch d.b[dHead] {
+					case 134: // ping: pong with the ping's hash as reply token
+						body := append([]byte{135}, "aqua"...)
+						body = append(body, refmodel.RlpList(rlpEndpoint(victim.IP, uint16(victim.Port), uint16(victim.Port)), refmodel.RlpBytes(d.b[:dMac]), rlpUint(uint64(time.Now().Unix()+20)))...)
+						asock.WriteToUDP(signedPacket(attacker, body), victim)
+						mu.Lock()
+						pongs++
+						mu.Unlock()
+					case 136: // findnode: the hostile reply
+						for _, pkt := range neighborsPackets(p, attacker, vid[:], time.Now().Unix()) {
+							asock.WriteToUDP(pkt, victim)
+						}
+						mu.Lock()
+						findnodes++
+						mu.Unlock()
+					}
+				}
+			}
+		}()
+		asock.WriteToUDP(signedPacket(attacker, pingBody(asock.addr, victim, uint64(time.Now().Unix()+20))), victim)
+		time.Sleep(2 * time.Second)
+		lookupDone := make(chan struct{})
+		go func() {
+			var target discover.NodeID
+			copy(target[:], refmodel.Keccak([]byte("lookup-target")))
+			tabs[0].Lookup(target)
+			close(lookupDone)
+		}()
+		select {
+		case <-lookupDone:
+		case <-time.After(30 * time.Second):
+			vs = append(vs, kernel.Violation{Class: "discovery-lookup-never-returns", Detail: "Lookup did not return within 30 simulated seconds after hostile NEIGHBORS replies"})
+		}
+		close(stopResp)
+		col.AddSim(5 * time.Second)
+		mu.Lock()
+		if pongs > 0 {
+			col.Inc("probe_attacker_answered_victims_ping")
+		}
+		if findnodes > 0 {
+			col.Inc("probe_victim_queried_attacker")
+			col.Add("fault_hostile_neighbor_entries", int64(len(p.Neighbors)))
+		}
+		mu.Unlock()
+		if len(vs) > 0 {
+			return vs
+		}
+	}
 	// drain whatever the victim answered to the attacker
 	for len(asock.in) > 0 {
 		<-asock.in
@@ -320,6 +450,8 @@ func Exec(t *testing.T, pa any, col *kernel.Collector) []kernel.Violation {
 			vs = execRlpx(p.Rlpx, col)
 		case "proto":
 			vs = execProto(p.Proto, col)
+		case "peer":
+			vs = execPeer(p.Peer, col)
 		default:
 			vs = execDisc(p, col)
 		}
@@ -329,11 +461,13 @@ func Exec(t *testing.T, pa any, col *kernel.Collector) []kernel.Violation {
 
 // Gen draws a plan of one of the three sub-simulations.
 func Gen(rng *kernel.RNG, env *kernel.Env, k int) any {
-	switch k % 3 {
+	switch k % 4 {
 	case 1:
 		return &DiscPlan{Mode: "rlpx", Rlpx: genRlpx(rng, env)}
 	case 2:
 		return &DiscPlan{Mode: "proto", Proto: genProto(rng, env)}
+	case 3:
+		return &DiscPlan{Mode: "peer", Peer: genPeer(rng, env)}
 	}
 	return genDisc(rng, env)
 }
@@ -341,6 +475,29 @@ func Gen(rng *kernel.RNG, env *kernel.Env, k int) any {
 func Shrink(pa any) []any {
 	p := pa.(*DiscPlan)
 	var out []any
+	if p.Mode == "peer" && p.Peer != nil {
+		for i := range p.Peer.Frames {
+			q := *p
+			pp := *p.Peer
+			pp.Frames = append(append([]HostileFrame{}, p.Peer.Frames[:i]...), p.Peer.Frames[i+1:]...)
+			q.Peer = &pp
+			out = append(out, &q)
+		}
+		if p.Peer.Knob != "none" {
+			q := *p
+			pp := *p.Peer
+			pp.Knob = "none"
+			q.Peer = &pp
+			out = append(out, &q)
+		}
+	}
+	if p.Mode == "disc" && len(p.Neighbors) > 1 {
+		for i := range p.Neighbors {
+			q := *p
+			q.Neighbors = append(append([]Neighbor{}, p.Neighbors[:i]...), p.Neighbors[i+1:]...)
+			out = append(out, &q)
+		}
+	}
 	if p.Mode == "disc" {
 		for size := len(p.Attack) / 2; size >= 1; size /= 2 {
 			for at := len(p.Attack) - size; at >= 0; at -= size {
